@@ -302,6 +302,50 @@ def runWR (fl : Flags) (newC oldC : List Nat) : Nat → State → WR → Option 
     let (st', w') := stepWR fl newC oldC st w
     runWR fl newC oldC n st' w'
 
+/-- one iteration of the loop in `Blockchain::validate` with the repaired failure path (flag `windFailureRestores`):
+    once winding the candidate has failed (`f = true`) the chain being wound is the OLD chain (the roles of the
+    two vectors are swapped, as the comments in `wind_chain` describe), the failure flag survives a successful
+    wind step, a block of the old chain that no longer validates ends the loop, and an empty old chain ends it
+    after the unwinding. -/
+def stepWRF (fl : Flags) (newC oldC : List Nat) (st : State) : WR → State × WR
+  | .wind i f =>
+    let c := if f then oldC else newC
+    if f && c.isEmpty then (st, .failure) else
+    match c[i]? with
+    | none => (st, .failure)
+    | some h =>
+      match getB st h with
+      | none => (st, .failure)
+      | some e =>
+        if validB fl st e.b then
+          let st' := windBlock st e.b
+          if i == 0 then (st', if f then .failure else .success) else (st', .wind (i - 1) f)
+        else if f then (st, .failure)
+        else if i + 1 == newC.length then
+          (if !oldC.isEmpty then (st, .wind (oldC.length - 1) true) else (st, .failure))
+        else (st, .unwind 0 true (newC.drop (i + 1)))
+  | .unwind i f chain =>
+    match chain[i]? with
+    | none => (st, .failure)
+    | some h =>
+      match getB st h with
+      | none => (st, .failure)
+      | some e =>
+        let st' := unwindBlock st e.b
+        let t := if f then oldC else newC
+        if i + 1 == chain.length then (if t.isEmpty then (st', .failure) else (st', .wind (t.length - 1) f))
+        else (st', .unwind (i + 1) f chain)
+  | .success => (st, .success)
+  | .failure => (st, .failure)
+
+def runWRF (fl : Flags) (newC oldC : List Nat) : Nat → State → WR → Option (State × Bool)
+  | _, st, .success => some (st, true)
+  | _, st, .failure => some (st, false)
+  | 0, _, _ => none
+  | n+1, st, w =>
+    let (st', w') := stepWRF fl newC oldC st w
+    runWRF fl newC oldC n st' w'
+
 def blocksOf (st : State) (l : List Nat) : List ABlock := l.filterMap fun h => (getB st h).map (·.b)
 
 /-- validity as the repaired reorganisation applies it: inputs are always checked against the ledger -/
@@ -340,7 +384,11 @@ def validate (fl : Flags) (st : State) (newC oldC : List Nat) : Option (State ×
     | some e0 =>
       let gtOk := if fl.gtEveryBlock then gtAllValid st newC else gtCountValid st e0.b.prev e0.b.hasGT
       if !gtOk then some (st, false)
-      else if fl.windFailureRestores then some (reorgFixed fl newC oldC st)
+      else if fl.windFailureRestores then
+        -- the repaired loop needs at most 2·(|new| + |old|) + 3 iterations (`C04.fixed_loop_returns`)
+        let fuel := 2 * (newC.length + oldC.length) + 4
+        if oldC.isEmpty then runWRF fl newC oldC fuel st (.wind (newC.length - 1) false)
+        else runWRF fl newC oldC fuel st (.unwind 0 false oldC)
       else
         let fuel := 4 * (newC.length + oldC.length) * (newC.length + oldC.length + 2) + 16
         if oldC.isEmpty then runWR fl newC oldC fuel st (.wind (newC.length - 1) false)
